@@ -166,6 +166,42 @@ Proof.
       rewrite (astep_buildmap _ _ _ _ (kwst_drop kw (pushA TAny a0))).
       destruct (kwst_shape kw (pushA TAny a0)) as [E1 E2]. unfold ak. rewrite ?E1, ?E2. subst ak. rewrite ?E1, ?E2. reflexivity.
     + apply (F_step _ _ _ (pushA TAny a0)); [destruct a0; reflexivity|apply astate_sub_refl].
+  - (* binary operator *) cbn [compile_expr].
+    destruct (IHe1 p a0 ext) as (s1 & F1).
+    destruct (IHe2 (p + length (compile_expr p e1)) (pushA TAny a0) ext) as (s2 & F2).
+    exists (s1 ++ s2 ++ [pushA TAny (pushA TAny a0)]).
+    eapply F_seq; [exact F1| |reflexivity|reflexivity].
+    eapply F_seq; [exact F2| |reflexivity|reflexivity].
+    apply (F_step _ _ _ (pushA TAny a0)); [destruct a0, op; reflexivity|apply astate_sub_refl].
+  - (* unary minus *) destruct (IHe p a0 ext) as (s1 & F1). exists (s1 ++ [pushA TAny a0]).
+    eapply F_seq; [exact F1| |reflexivity|reflexivity].
+    apply (F_step _ _ _ (pushA TAny a0)); [destruct a0; reflexivity|apply astate_sub_refl].
+  - (* ternary *) cbn [compile_expr].
+    set (cc := compile_expr p e1). set (b1 := p + length cc + 1).
+    set (ca := compile_expr b1 e2). set (b2 := b1 + length ca + 1).
+    set (cb := compile_expr b2 e3). set (tend := b2 + length cb).
+    set (a1 := pushA TAny a0).
+    set (ext' := (tend, a1) :: (b2, a0) :: ext).
+    destruct (IHe1 p a0 ext') as (s1 & F1). fold cc in F1.
+    destruct (IHe2 b1 a0 ext') as (s2 & F2). fold ca in F2.
+    destruct (IHe3 b2 a0 ext') as (s3 & F3). fold cb in F3.
+    exists ((s1 ++ [a1] ++ s2 ++ [a1]) ++ s3).
+    assert (FA : Frag p (cc ++ [PopJumpIfFalse b2] ++ ca ++ [Jump tend] ++ cb)
+                      ((s1 ++ [a1] ++ s2 ++ [a1]) ++ s3) a0 a1 ext').
+    { eapply (F_seq p (cc ++ [PopJumpIfFalse b2] ++ ca ++ [Jump tend]) _ _ a0 cb _ _ _ b2); [|exact F3| |].
+      - eapply F_seq; [exact F1| |reflexivity|reflexivity].
+        eapply (F_seq _ [PopJumpIfFalse b2] _ _ a0 (ca ++ [Jump tend]) _ _ _ b1); [| |unfold b1; cbn [length]; lia|reflexivity].
+        + apply (F_branch _ _ _ a0 b2 a0); [destruct a0; reflexivity|apply astate_sub_refl|right; left; reflexivity].
+        + eapply (F_seq _ ca _ _ a1 [Jump tend]); [exact F2| |reflexivity|reflexivity].
+          apply (F_goto _ _ _ tend a1); [reflexivity|left; reflexivity].
+      - unfold b2, b1. rewrite !app_length. cbn [length]. lia.
+      - rewrite <- !app_assoc. reflexivity. }
+    apply (F_resolve _ _ _ _ _ ext' ext FA). intros l [<-|[<-|Hin]]; [right|right|left; exact Hin].
+    * apply (resolved_end _ _ _ _ _ _ _ _ FA); [|apply astate_sub_refl].
+      unfold tend, b2, b1. rewrite !app_length. cbn [length]. lia.
+    * apply resolved_last; [exact (proj1 (proj2 F3))|].
+      destruct F1 as (L1 & _). destruct F2 as (L2 & _).
+      unfold b2, b1. rewrite !app_length. cbn [length]. rewrite L1, L2. lia.
 Qed.
 
 (* ---------- keyword arguments and filter chains ---------- *)
